@@ -40,6 +40,9 @@ class Refine(Contract):
     inline = ("RefinementObjectSingleDimension.__init__", "GlobalGrid.get_mid_point", "GlobalTrapezoidalGrid.get_mid_point", "get_mid_point")
     must_hold_asserts = True       # C06: a well-formed interval can always be split (start < mid < end), no exception
 
+    def applies(self, receiver, args):
+        return not hasattr(receiver, "origin")      # elements of object lists use the caller-side form (ObjRefineForCallers)
+
     def inputs(self, S):
         return {"self": interval(S)}
 
@@ -363,15 +366,336 @@ class MetaGetNextObject(Contract):
                     z3.ForAll([j], z3.Implies(z3.And(j >= co.fields["searchPosition"], j < ipos), z3.Select(ben, j) < tol)),
                     cn.fields["searchPosition"] == ipos + 1)))
                 sel.append(z3.Implies(z3.And(cur0 <= c, c < cpos_z), self.none_from_cursor(co, tol)))
+            others = [z3.Implies(cpos_z != c, f["refinementContainers"].items[c].fields["searchPosition"] == so["refinementContainers"].items[c].fields["searchPosition"])
+                      for c in range(self.ndim)]
             out += [Cl("selected-dimension-at-or-after-cursor", z3.And(cpos_z >= cur0, cpos_z < self.ndim, f["curContainer"] == cpos_z), prop=True),
-                    Cl("selected-reaches-tolerance-and-nothing-is-skipped", z3.And(*sel), prop=True)]
+                    Cl("selected-reaches-tolerance-and-nothing-is-skipped", z3.And(*sel), prop=True),
+                    Cl("cursors-of-the-other-dimensions-untouched", z3.And(*others))]
         elif found is False:
             none = [z3.Implies(cur0 <= c, self.none_from_cursor(so["refinementContainers"].items[c], tol)) for c in range(self.ndim)]
             out += [Cl("no-candidate-left-in-any-dimension", z3.And(*none), prop=True),
-                    Cl("cursor-exhausted", f["curContainer"] == self.ndim)]
+                    Cl("cursor-exhausted", f["curContainer"] == self.ndim),
+                    Cl("cursors-of-all-dimensions-untouched", z3.And(*[f["refinementContainers"].items[c].fields["searchPosition"] == so["refinementContainers"].items[c].fields["searchPosition"]
+                                                                        for c in range(self.ndim)]))]
         else:
             out = [Cl("returns-triple", False, prop=True)]
         return out
 
 
 CONTRACTS += [MetaGetNextObject(1), MetaGetNextObject(2), MetaGetNextObject(3)]
+
+
+# --------------------------------------------------------------------------- RefinementContainer.refine (one interval is split)
+def full_container(S, tag=""):
+    n = S.int("n" + tag)
+    S.assume(n >= 1)
+    fields = dict(benefit=S.array("benefit" + tag, I, R), error=S.array("error" + tag, I, R), evaluations=S.array("evaluations" + tag, I, I),
+                  coarsening_level=S.array("coarsening" + tag, I, I), start=S.array("start" + tag, I, R), end=S.array("end" + tag, I, R),
+                  levels=[S.array("l0" + tag, I, I), S.array("l1" + tag, I, I)])
+    objs = ObjSeq("RefinementObjectSingleDimension", n, fields)
+    pop_n = S.int("pop.len" + tag)
+    S.assume(pop_n >= 0)
+    return Obj("RefinementContainer", dict(refinementObjects=objs, dim=1, startNewObjects=S.int("startNewObjects" + tag), searchPosition=S.int("searchPosition" + tag),
+                                           popArray=Seq("list", None, pop_n, S.array("popArray" + tag, I, I)), value=S.real("cvalue" + tag),
+                                           evaluationstotal=S.int("cevals" + tag)))
+
+
+class ObjRefineForCallers(Contract):
+    """caller-side view of RefinementObjectSingleDimension.refine on an element of an object list: the proved postcondition of `Refine`
+    (two children tiling the interval, shared level max+1, coarsening max(c-1,0)) -- same clauses, stated on the element view"""
+    file, qualname = "sparseSpACE/RefinementObject.py", "RefinementObjectSingleDimension.refine"
+    trusted = True
+    note = "proved separately as RefinementObjectSingleDimension.refine (contract `Refine`); this is its caller-side form for list elements"
+
+    def applies(self, receiver, args):
+        return hasattr(receiver, "origin")
+
+    def inputs(self, S):
+        return {"self": interval(S)}
+
+    def result(self, S, env):
+        s = env["self"].fields
+        kids = []
+        for k in range(2):
+            kids.append(Obj("RefinementObjectSingleDimension", dict(start=S.real("child%d.start" % k), end=S.real("child%d.end" % k),
+                                                                     levels=Seq("list", [S.int("child%d.l0" % k), S.int("child%d.l1" % k)]),
+                                                                     coarsening_level=S.int("child%d.coarsening" % k), evaluations=0, error=z3.RealVal(0), benefit=None)))
+        return Seq("tuple", [Seq("list", kids), None, None])
+
+    def post(self, S, old, env, result):
+        s = old["self"].fields
+        c0, c1 = [k.fields for k in result.items[0].items]
+        l0, l1 = s["levels"].items
+        m = zmax(l0, l1)
+        return [("children", z3.And(c0["start"] == s["start"], c0["end"] == c1["start"], c1["end"] == s["end"], s["start"] < c0["end"], c0["end"] < s["end"],
+                                    c0["levels"].items[0] == l0, c0["levels"].items[1] == m + 1, c1["levels"].items[0] == m + 1, c1["levels"].items[1] == l1,
+                                    c0["coarsening_level"] == zmax(s["coarsening_level"] - 1, 0), c1["coarsening_level"] == c0["coarsening_level"]))]
+
+
+class ContainerRefine(Contract):
+    file, qualname = RC_FILE, "RefinementContainer.refine"
+    inline = ("RefinementContainer.prepare_remove", "prepare_remove", "RefinementContainer.add", "add")
+    modifies = ("refinementObjects", "popArray", "startNewObjects")
+
+    def inputs(self, S):
+        return {"self": full_container(S), "object_id": S.int("object_id")}
+
+    def pre(self, S, env):
+        f = env["self"].fields
+        i = env["object_id"]
+        n = f["refinementObjects"].length
+        return [("index", z3.And(i >= 0, i < n)), ("marker", z3.And(f["startNewObjects"] >= 0, f["startNewObjects"] <= n))]
+
+    def result(self, S, env):
+        return Seq("tuple", [None, Opaque_list(S)])
+
+    def post(self, S, old, env, result):
+        fo, f = old["self"].fields, env["self"].fields
+        oo, o = fo["refinementObjects"], f["refinementObjects"]
+        n = oo.length
+        i = old["object_id"]
+        j = z3.Int("cj")
+        po, pn = fo["popArray"].to_symbolic(), f["popArray"].to_symbolic()
+        pre_kept = []
+        for fld in ("benefit", "start", "end", "coarsening_level"):
+            pre_kept.append(z3.ForAll([j], z3.Implies(z3.And(j >= 0, j < n), z3.Select(o.fields[fld], j) == z3.Select(oo.fields[fld], j))))
+        l0o, l1o = oo.fields["levels"]
+        l0n, l1n = o.fields["levels"]
+        m = zmax(z3.Select(l0o, i), z3.Select(l1o, i))
+        return [Cl("two-children-appended", V(o.length) == n + 2, prop=True),
+                Cl("existing-objects-untouched", z3.And(*pre_kept), prop=True),
+                Cl("children-tile-the-refined-interval", z3.And(z3.Select(o.fields["start"], n) == z3.Select(oo.fields["start"], i),
+                                                                z3.Select(o.fields["end"], n) == z3.Select(o.fields["start"], n + 1),
+                                                                z3.Select(o.fields["end"], n + 1) == z3.Select(oo.fields["end"], i),
+                                                                z3.Select(o.fields["start"], n) < z3.Select(o.fields["end"], n),
+                                                                z3.Select(o.fields["start"], n + 1) < z3.Select(o.fields["end"], n + 1)), prop=True),
+                Cl("children-levels", z3.And(z3.Select(l0n, n) == z3.Select(l0o, i), z3.Select(l1n, n) == m + 1, z3.Select(l0n, n + 1) == m + 1,
+                                             z3.Select(l1n, n + 1) == z3.Select(l1o, i)), prop=True),
+                Cl("refined-object-scheduled-for-removal", z3.And(V(pn.len()) == V(po.len()) + 1, pn.arr == z3.Store(po.arr, V(po.len()), i)), prop=True),
+                Cl("new-object-marker", f["startNewObjects"] == z3.If(fo["startNewObjects"] == 0, n, fo["startNewObjects"])),
+                Cl("cursor-untouched", f["searchPosition"] == fo["searchPosition"])]
+
+
+def Opaque_list(S):
+    from pyvc.values import Opaque
+    from pyvc import prelude as P
+    return Opaque(S.const("new_objects", P.U))
+
+
+CONTRACTS += [ObjRefineForCallers(), ContainerRefine()]
+
+
+# --------------------------------------------------------------------------- the refinement step: SpatiallyAdaptivBase.refine (dimension-wise strategy)
+from pyvc import lemmas as L  # noqa: E402
+
+IA = z3.ArraySort(I, I)
+INPOP = z3.Function("InList", IA, I, I, z3.BoolSort())      # InList(p, n, j): j occurs among p[0..n)
+
+
+def inpop_axioms():
+    p = z3.Const("ip", IA)
+    n, v, j, m = z3.Ints("in iv ij im")
+    return [z3.ForAll([p, j], z3.Not(INPOP(p, 0, j)), patterns=[INPOP(p, 0, j)]),
+            z3.ForAll([p, n, v, j, m], z3.Implies(z3.And(n >= 0, m == n + 1), INPOP(z3.Store(p, n, v), m, j) == z3.Or(INPOP(p, n, j), j == v)),
+                      patterns=[INPOP(z3.Store(p, n, v), m, j)])]
+
+
+def _inpop_lemma():
+    """the two axioms used for InList hold for its definition  InList(p,n,j) := exists t. 0<=t<n and p[t]==j"""
+    p = z3.Const("p", IA)
+    n, v, j, t = z3.Ints("n v j t")
+    D = lambda arr, m: z3.Exists([t], z3.And(t >= 0, t < m, z3.Select(arr, t) == j))  # noqa
+    return [([], z3.Not(D(p, z3.IntVal(0)))),
+            ([n >= 0, D(z3.Store(p, n, v), n + 1)], z3.Or(D(p, n), j == v)),
+            ([n >= 0, D(p, n)], D(z3.Store(p, n, v), n + 1)),
+            ([n >= 0, j == v], D(z3.Store(p, n, v), n + 1))]
+
+
+def qualifies(cont_old, j, tol):
+    return z3.Select(cont_old.fields["refinementObjects"].fields["benefit"], j) >= tol
+
+
+def selection_done(cont_now, cont_0, n0, progress, tol, tag):
+    """pop list of one container == ascending list of the qualifying pre-existing indices below `progress`"""
+    pa = cont_now.fields["popArray"].to_symbolic()
+    plen = V(pa.len())
+    j, t = z3.Int("sj" + tag), z3.Int("st" + tag)
+    return [("exactly-the-qualifying-indices" + tag, z3.ForAll([j], INPOP(pa.arr, plen, j) == z3.And(j >= 0, j < progress, qualifies(cont_0, j, tol)),
+                                                                patterns=[INPOP(pa.arr, plen, j)])),
+            ("each-once-ascending" + tag, z3.ForAll([t], z3.Implies(z3.And(t >= 0, t < plen), z3.And(z3.Select(pa.arr, t) >= 0, z3.Select(pa.arr, t) < progress,
+                                                                                                    z3.Implies(t + 1 < plen, z3.Select(pa.arr, t) < z3.Select(pa.arr, t + 1)))))),
+            ("pop-length" + tag, plen >= 0)]
+
+
+class MetaGetNextForCallers:
+    """mixin: caller-side frame and result shapes of MetaRefinementContainer.get_next_object_for_refinement"""
+
+    def havoc(self, S, cenv, tag):
+        m = cenv["self"]
+        m.fields["curContainer"] = S.int(tag + ".curContainer")
+        for c, cont in enumerate(m.fields["refinementContainers"].items):
+            cont.fields["searchPosition"] = S.int("%s.searchPosition%d" % (tag, c))
+
+    def result(self, S, env):
+        if S.ex.decide(S.bool("meta.found")):
+            return Seq("tuple", [True, Seq("tuple", [S.int("meta.found.dim"), S.int("meta.found.index")]), None])
+        return Seq("tuple", [False, None, None])
+
+
+for _c in CONTRACTS:
+    if isinstance(_c, MetaGetNextObject):
+        _c.havoc = MetaGetNextForCallers.havoc.__get__(_c)
+        _c.result = MetaGetNextForCallers.result.__get__(_c)
+        _c.applies = (lambda nd: (lambda receiver, args: len(receiver.fields["refinementContainers"].items) == nd))(_c.ndim)
+
+
+class MetaRefine(Contract):
+    file, qualname = RC_FILE, "MetaRefinementContainer.refine"
+
+    def __init__(self, ndim):
+        self.ndim = ndim
+        self.label = "MetaRefinementContainer.refine[dims=%d]" % ndim
+
+    def applies(self, receiver, args):
+        return len(receiver.fields["refinementContainers"].items) == self.ndim
+
+    def inputs(self, S):
+        conts = [full_container(S, str(c)) for c in range(self.ndim)]
+        return {"self": Obj("MetaRefinementContainer", dict(refinementContainers=Seq("list", conts), curContainer=S.int("curContainer"))),
+                "position": Seq("tuple", [S.int("pos.dim"), S.int("pos.index")])}
+
+    def pre(self, S, env):
+        cpos, ipos = env["position"].items
+        out = [("dimension-in-range", z3.And(V(cpos) >= 0, V(cpos) < self.ndim))]
+        for c, cont in enumerate(env["self"].fields["refinementContainers"].items):
+            f = cont.fields
+            n = f["refinementObjects"].length
+            out.append(("index-in-range-%d" % c, z3.Implies(V(cpos) == c, z3.And(V(ipos) >= 0, V(ipos) < n))))
+            out.append(("marker-%d" % c, z3.And(f["startNewObjects"] >= 0, f["startNewObjects"] <= n)))
+        return out
+
+    def havoc(self, S, cenv, tag):
+        for c, cont in enumerate(cenv["self"].fields["refinementContainers"].items):
+            for fld in ("refinementObjects", "popArray", "startNewObjects"):
+                cont.fields[fld] = S.like(cont.fields[fld], "%s.c%d.%s" % (tag, c, fld))
+
+    def result(self, S, env):
+        return Seq("tuple", [None, Opaque_list(S)])
+
+    @staticmethod
+    def summary(co, cn, ipos):
+        """effect of RefinementContainer.refine(ipos) on one container, as far as the selection argument needs it"""
+        oo, o = co.fields["refinementObjects"], cn.fields["refinementObjects"]
+        n = V(oo.length)
+        po, pn = co.fields["popArray"].to_symbolic(), cn.fields["popArray"].to_symbolic()
+        j = z3.Int("mrj")
+        return z3.And(V(o.length) == n + 2,
+                      z3.ForAll([j], z3.Implies(z3.And(j >= 0, j < n), z3.Select(o.fields["benefit"], j) == z3.Select(oo.fields["benefit"], j))),
+                      V(pn.len()) == V(po.len()) + 1, pn.arr == z3.Store(po.arr, V(po.len()), ipos),
+                      cn.fields["startNewObjects"] == z3.If(co.fields["startNewObjects"] == 0, n, co.fields["startNewObjects"]),
+                      cn.fields["searchPosition"] == co.fields["searchPosition"])
+
+    @staticmethod
+    def untouched(co, cn):
+        oo, o = co.fields["refinementObjects"], cn.fields["refinementObjects"]
+        return z3.And(V(o.length) == V(oo.length), o.fields["benefit"] == oo.fields["benefit"],
+                      V(cn.fields["popArray"].to_symbolic().len()) == V(co.fields["popArray"].to_symbolic().len()),
+                      cn.fields["popArray"].to_symbolic().arr == co.fields["popArray"].to_symbolic().arr,
+                      cn.fields["startNewObjects"] == co.fields["startNewObjects"], cn.fields["searchPosition"] == co.fields["searchPosition"])
+
+    def post(self, S, old, env, result):
+        cpos, ipos = old["position"].items
+        out = []
+        for c in range(self.ndim):
+            co, cn = old["self"].fields["refinementContainers"].items[c], env["self"].fields["refinementContainers"].items[c]
+            out.append(Cl("selected-dimension-%d-gets-the-split" % c, z3.Implies(V(cpos) == c, self.summary(co, cn, V(ipos)))))
+            out.append(Cl("other-dimension-%d-untouched" % c, z3.Implies(V(cpos) != c, self.untouched(co, cn))))
+        out.append(Cl("cursor-untouched", env["self"].fields["curContainer"] == old["self"].fields["curContainer"]))
+        return out
+
+
+class RefinementPostprocessing(Contract):
+    """the point at which the refinement step hands over to removal / sorting / rebalancing.  Its PRECONDITION is the C06 selection clause: for
+    every dimension the list of intervals scheduled for removal (== the intervals that were split) is exactly the ascending list of the
+    pre-existing intervals whose benefit reaches margin * largest benefit."""
+    file, qualname = SD_FILE, "SpatiallyAdaptiveSingleDimensions2.refinement_postprocessing"
+    trusted = True
+    note = "body (apply_remove(sort), rebalance, coarsening update, new scheme) is covered by the other C06 contracts and by layer B; here only its precondition matters"
+
+    def inputs(self, S):
+        return {"self": Obj("SpatiallyAdaptiveSingleDimensions2", {})}
+
+    def pre(self, S, env):
+        s = env["self"]
+        g = s.fields.get("ghost_entry")
+        if g is None:
+            return []
+        tol = g["tol"]
+        out = []
+        for c, cont in enumerate(s.fields["refinement"].fields["refinementContainers"].items):
+            for nm, e in selection_done(cont, g["conts"][c], g["n0"][c], g["n0"][c], tol, "[dim %d]" % c):
+                out.append(Cl("split-set-is-" + nm, e, prop=True))
+        return out
+
+
+class BaseRefine(Contract):
+    file, qualname = "sparseSpACE/spatiallyAdaptiveBase.py", "SpatiallyAdaptivBase.refine"
+    inline = ("SpatiallyAdaptivBase.prepare_refinement", "prepare_refinement", "MetaRefinementContainer.clear_new_objects", "clear_new_objects",
+              "RefinementContainer.clear_new_objects", "SpatiallyAdaptiveSingleDimensions2.do_refinement", "do_refinement")
+
+    def __init__(self, ndim):
+        self.ndim = ndim
+        self.label = "SpatiallyAdaptivBase.refine[dimension-wise, dims=%d]" % ndim
+
+    def inputs(self, S):
+        for ax in inpop_axioms():
+            S.assume(ax)
+        conts = [full_container(S, str(c)) for c in range(self.ndim)]
+        meta = Obj("MetaRefinementContainer", dict(refinementContainers=Seq("list", conts), curContainer=0))
+        margin, bmax = S.real("margin"), S.real("benefit_max")
+        s = Obj("SpatiallyAdaptiveSingleDimensions2", dict(refinement=meta, margin=margin, benefit_max=bmax, refinements=S.int("refinements"),
+                                                           recalculate_frequently=False, log_util=Obj("LogUtility", {})))
+        # ghost snapshot of the entry state for the precondition of refinement_postprocessing
+        from pyvc import values as Vv
+        s.fields["ghost_entry"] = {"tol": bmax * margin, "conts": [Vv.clone(c) for c in conts], "n0": [c.fields["refinementObjects"].length for c in conts]}
+        return {"self": s}
+
+    def pre(self, S, env):
+        out = []
+        for c, cont in enumerate(env["self"].fields["refinement"].fields["refinementContainers"].items):
+            f = cont.fields
+            out += [("fresh-step-%d" % c, z3.And(f["searchPosition"] == 0, V(f["popArray"].to_symbolic().len()) == 0, f["refinementObjects"].length >= 1))]
+        return out
+
+    def inv(self, S, env, g):
+        s = env["self"]
+        ge = s.fields["ghost_entry"]
+        tol = ge["tol"]
+        meta = s.fields["refinement"]
+        cur = meta.fields["curContainer"]
+        out = [("cursor-range", z3.And(V(cur) >= 0, V(cur) <= self.ndim)),
+               ("not-quitting", (env["quit_refinement"] is False) if isinstance(env["quit_refinement"], bool) else z3.Not(env["quit_refinement"])),
+               ("tolerance-fixed", z3.And(s.fields["benefit_max"] * env["margin"] == tol, s.fields["margin"] == env["margin"]))]
+        for c, cont in enumerate(meta.fields["refinementContainers"].items):
+            f = cont.fields
+            c0, n0 = ge["conts"][c], ge["n0"][c]
+            o = f["refinementObjects"]
+            j = z3.Int("bj%d" % c)
+            progress = z3.If(V(cur) > c, n0, z3.If(V(cur) == c, f["searchPosition"], 0))
+            out += [("window-frozen-%d" % c, z3.And(f["startNewObjects"] == n0, V(o.length) >= n0, f["searchPosition"] >= 0, f["searchPosition"] <= n0,
+                                                    z3.Implies(V(cur) < c, f["searchPosition"] == 0))),
+                    ("benefits-of-existing-intervals-unchanged-%d" % c, z3.ForAll([j], z3.Implies(z3.And(j >= 0, j < n0),
+                     z3.Select(o.fields["benefit"], j) == z3.Select(c0.fields["refinementObjects"].fields["benefit"], j))))]
+            out += [(nm + "-%d" % c, e) for nm, e in selection_done(cont, c0, n0, progress, tol, "[dim %d]" % c)]
+        return out
+
+    @property
+    def loops(self):
+        return {0: Loop(inv=lambda S, env, g: self.inv(S, env, g))}
+
+    def post(self, S, old, env, result):
+        return [Cl("returns-none", result is None)]
+
+
+CONTRACTS += [MetaRefine(1), MetaRefine(2), RefinementPostprocessing(), BaseRefine(1), BaseRefine(2)]
+LEMMAS += [L.SmtLemma("InList-axioms-hold-for-the-existential-definition", _inpop_lemma)]
